@@ -12,9 +12,6 @@ static uint64_t verif_bits(double d) { uint64_t u; __CPROVER_assert(sizeof(u) ==
 #define BITS(d) verif_bits(d)
 
 /* harness input builders ------------------------------------------------------------------------------- */
-#ifndef VERIF_MAXBUF
-#define VERIF_MAXBUF 0x7fffffffUL   /* SQLite's hard blob limit (2^31 - 1): no database can hand the decoders more */
-#endif
 /* p points at least N bytes before the end of a heap buffer of arbitrary size; remembers base/size for frames */
 #define RBUF(p, N) \
   size_t p##_n = nondet_size_t(); __CPROVER_assume(p##_n >= (N) && p##_n <= VERIF_MAXBUF); \
@@ -31,6 +28,14 @@ static uint64_t verif_bits(double d) { uint64_t u; __CPROVER_assert(sizeof(u) ==
 #define BYTEVEC(v) \
   (v).size = nondet_size_t(); __CPROVER_assume((v).size <= VERIF_MAXBUF); (v).cap = (v).size; \
   (v).data = (uint8_t*)malloc((v).size ? (v).size : 1); __CPROVER_assume((v).data != 0);
+/* validity of a vector in the abstract container model: storage object of cap elements, size <= cap */
+#define VEC_VALID(v) ((v).size <= (v).cap && (v).data != 0 && __CPROVER_rw_ok((v).data, (v).cap * sizeof(*(v).data)))
+#define RANGE_OK(p, e) (__CPROVER_same_object(p, e) && (p) <= (e) && __CPROVER_r_ok(p, (size_t)((e) - (p))))
+/* stub side: a fresh vector of n elements with arbitrary contents */
+#define FRESH_VEC(v, n) \
+  (v).size = (n); (v).cap = (v).size ? (v).size : 1; (v).data = malloc((v).cap * sizeof(*(v).data)); __CPROVER_assume((v).data != 0);
+#define FRESH_VEC_ANY(v, maxn) \
+  { size_t __n = nondet_size_t(); __CPROVER_assume(__n <= (maxn)); FRESH_VEC(v, __n) }
 /* frame: one arbitrary byte of the buffer under p, remembered before the call */
 #define FRAME_PRE(p) size_t p##_fj = nondet_size_t(); __CPROVER_assume(p##_fj < p##_n); uint8_t p##_fold = p##_base[p##_fj];
 #define FRAME_OK(p, lo, hi) ((p##_fj >= p##_off + (lo) && p##_fj < p##_off + (hi)) || p##_base[p##_fj] == p##_fold)
